@@ -183,6 +183,18 @@ def run_config(chk, ctx, name):
                 chk.ob("FUNNEL.parse-failure-is-error", which + tag, bool(cs) and not leak,
                        "a failed %s parse in %s is not turned into an error before verification" % (which, vf.path), where=vf.loc(b))
 
+    # GF-NSPK completeness: the parser's bound on the number of signed public keys lets through every count the container
+    # can hold (capacity = MAX_ALLOWED_HSS_LEVELS - 1); a tighter bound rejects genuine signatures of maximum-depth keys
+    from . import requires as _rq
+    rq = _rq.Req(F, A, None)
+    if rq is not None:
+        okn, _why = rq.r_GF_NSPK()
+        bounds = getattr(rq, "nspk_bounds", [])
+        chk.count("nspk_bounds_evaluated", len(bounds))
+        if okn:
+            chk.ob("GF-NSPK.admits-every-storable-count", an.sig_parser.key + tag, bool(bounds) and all(bd == cp for bd, cp in bounds),
+                   "the signature parser %s lets through at most %s signed public keys although %s fit (and are legal for a key of maximum depth): "
+                   "valid signatures of keys with the maximum number of levels are rejected" % (an.sig_parser.path, [bd for bd, _ in bounds], [cp for _, cp in bounds]), where=an.sig_parser.loc())
     # GF-LEVEL ---------------------------------------------------------------------------
     hv = an.hss_verify
     lms_blocks = [b for b, t in an.lms_calls]
